@@ -103,6 +103,15 @@ func runC06(c *Ctx) {
 			c.Sample(map[string]interface{}{"files": sw.FileMap()})
 		}
 	})
+	// unsaved-edit lane: one document's buffer differs from its file on disk
+	nDirty := c.N(60, 1500)
+	parallel(nDirty, 14, func(i int) {
+		r := root.Fork(uint64(3000000 + i))
+		sw := GenScopeWS(r, ScopeCfg{JoinPct: -1})
+		c.Eval(1)
+		c.Count("workspaces_with_an_unsaved_edit", 1)
+		checkC06WSDirty(c, sw, fmt.Sprintf("c06d%d", i), sw.Files[r.Intn(len(sw.Files))].Rel)
+	})
 	// wide lane: many small files, so that the all-files search for a global hands out more files than its worker pool has workers
 	nWide := c.N(12, 300)
 	parallel(nWide, 6, func(i int) {
@@ -119,15 +128,43 @@ func runC06(c *Ctx) {
 		checkC06WS(c, sw, fmt.Sprintf("c06wide%d", i))
 	})
 	c.Finish("generated 2-4 file workspaces as in C05, plus wide workspaces of 24-90 small files whose globals are used across many files (more files than the references "+
-		"worker pool has workers); answers must not list a location twice; textDocument/references (declaration included) from every variable-name occurrence is "+
+		"worker pool has workers); workspaces in which one open document has an unsaved edit that shifts every position of its buffer against the file on disk; answers must not list a location twice; textDocument/references (declaration included) from every variable-name occurrence is "+
 		"compared as a set of (file, range) with the reference binder's occurrence class of that binding (locals: declaration+reads+writes; "+
 		"globals: every unshadowed occurrence in every file). distinct_nontrivial = distinct (file text, occurrence) queried with a definite expectation", 300)
 }
 
 func init() { wsChecks["C06"] = checkC06WS }
 
-func checkC06WS(c *Ctx, sw *ScopeWS, tag string) {
-	ws, srv, err := startScopeServer(c, sw, tag)
+func checkC06WS(c *Ctx, sw *ScopeWS, tag string) { checkC06WSDirty(c, sw, tag, "") }
+
+// checkC06WSDirty: with dirtyRel != "", that document is first opened with a longer saved text (two extra statements
+// on top) and then edited, without saving, to the text in sw - every position of the buffer differs from the file on disk.
+func checkC06WSDirty(c *Ctx, sw *ScopeWS, tag string, dirtyRel string) {
+	var ws *Workspace
+	var srv *Server
+	var err error
+	if dirtyRel == "" {
+		ws, srv, err = startScopeServer(c, sw, tag)
+	} else {
+		files := sw.FileMap()
+		newText := files[dirtyRel]
+		files[dirtyRel] = "local zzPad = 1\nprint(zzPad)\n" + newText
+		ws = c.NewWorkspace(files)
+		srv, err = StartServer(ServerOpts{Root: ws.Root, Tag: tag})
+		if err == nil {
+			for rel, txt := range files {
+				srv.DidOpen(ws.URI(rel), txt)
+			}
+			srv.DidChangeFull(ws.URI(dirtyRel), 2, newText)
+			err = srv.Fence()
+		}
+		if err != nil {
+			if srv != nil {
+				srv.Close()
+			}
+			ws.Remove()
+		}
+	}
 	if err != nil {
 		c.Inconclusive("server failed on a generated workspace (C01's business): " + err.Error())
 		return
@@ -143,6 +180,12 @@ func checkC06WS(c *Ctx, sw *ScopeWS, tag string) {
 			name := o.Tok.Val
 			if o.Decl == nil && luaBuiltins[name] {
 				c.Count("dont_care_builtin", 1)
+				continue
+			}
+			if o.Decl == nil && dirtyRel != "" {
+				// while a document has unsaved edits the workspace-wide global tables still describe the saved files (they
+				// are rebuilt on save, by design); only file-local bindings are served from the live buffer
+				c.Count("dont_care_global_while_a_buffer_is_unsaved", 1)
 				continue
 			}
 			if o.Decl == nil && len(sw.GlobalDefs[name]) == 0 {
